@@ -228,6 +228,10 @@ func (e *Explorer) killThreads() {
 type lockState struct {
 	writer  bool
 	readers int
+	// goroutines blocked in (*RWMutex).Lock: like Go's RWMutex, a pending
+	// writer keeps NEW readers out (a reader that arrives while a writer waits
+	// blocks until that writer has had the lock)
+	pendingWriters int
 }
 
 func (e *Explorer) lockOf(p *value) *lockState {
@@ -243,6 +247,10 @@ func init() {
 	lock := func(fr *frame, args []value) value {
 		e := ex(fr)
 		l := e.lockOf(args[0].(*value))
+		if l.writer || l.readers > 0 {
+			l.pendingWriters++
+			defer func() { l.pendingWriters-- }()
+		}
 		e.blockUntil(func() bool { return !l.writer && l.readers == 0 }, "Lock of a mutex that is never released")
 		l.writer = true
 		e.cur.hold(args[0], true)
@@ -273,7 +281,7 @@ func init() {
 	externals["(*sync.RWMutex).RLock"] = func(fr *frame, args []value) value {
 		e := ex(fr)
 		l := e.lockOf(args[0].(*value))
-		e.blockUntil(func() bool { return !l.writer }, "RLock of a mutex that is never released")
+		e.blockUntil(func() bool { return !l.writer && l.pendingWriters == 0 }, "RLock of a mutex that is never released (or that a writer is waiting for)")
 		l.readers++
 		e.cur.hold(args[0], false)
 		return nil
